@@ -452,7 +452,9 @@ func cmdRun(args []string) int {
 	for _, k := range known {
 		if k.Kind == "known" {
 			if knownHits[k.Key] > 0 {
-				knownLines = append(knownLines, fmt.Sprintf("KNOWN-FINDING: property=%s %s", *prop, k.Text))
+				// the line names the property the finding is listed under (a harness shared between
+				// properties meets the same defect; it is one finding, listed once)
+				knownLines = append(knownLines, fmt.Sprintf("KNOWN-FINDING: property=%s %s", k.Property, k.Text))
 			} else if len(results) > 0 && *only == "" && k.Property == *prop {
 				fmt.Fprintf(os.Stderr, "note: known finding %s no longer reproduces within this tier's bounds (stale entry?)\n", k.Key)
 			}
